@@ -82,6 +82,14 @@ theorem PJ_log {G c cs sl x} (h : PJ G c cs sl) (hx : lookupL cs c = some x) :
     PJ G c cs (sl ++ [(c, x.fdOpen)]) :=
   ⟨⟨h.j.inv, fun g => FdL_append (h.j.fd g) (PJ_fdOpen h hx)⟩, h.op⟩
 
+/-- a system call on the descriptor of `c` issued from a place where the connection need not be
+    opened (the hop `dup` inside a callback): the model has just checked the ledger entry itself -/
+theorem J_log_fd {G c cs sl x x1} (h : J G cs sl) (hb : ¬ (!x.fdOpen) = true)
+    (hx : lookupL cs c = some x) (hx1 : lookupL cs c = some x1) :
+    J G cs (sl ++ [(c, x1.fdOpen)]) := by
+  rw [hx] at hx1; cases hx1
+  exact ⟨h.inv, fun g => FdL_append (h.fd g) (by simpa using hb)⟩
+
 /-- the lifecycle fields after one more OnTraffic -/
 def coreT (x : Conn) : Core := (x.opened, x.registered, x.fdOpen, x.word ++ ["traffic"], x.closeErrNil)
 
@@ -126,6 +134,7 @@ macro "j_auto" : tactic => `(tactic| repeat' first
   | apply And.intro
   | exact True.intro
   | assumption
+  | (refine J_log_fd ?_ (by assumption) (by assumption) (by assumption))
   | (refine PJ_log ?_ (by assumption))
   | (apply PJ_upd; rotate_left; assumption; rfl)
   | (apply PJ_traffic; rotate_left; assumption; rfl)
